@@ -8,6 +8,7 @@ import (
 	"errors"
 	"fmt"
 	"io"
+	"math"
 	"net"
 	"net/http"
 	"os"
@@ -206,7 +207,7 @@ type c02Result struct {
 
 // execC02 must be called inside a synctest bubble.
 func execC02(c c02Case) (res c02Result, err error) {
-	w := &c02World{pacerCh: make(chan c02PacerAns), gates: map[uint64]chan error{}, tails: map[uint64]chan struct{}{}, errSalt: len(c.Script) + int(c.Workers), heldCall: -1}
+	w := &c02World{pacerCh: make(chan c02PacerAns), gates: map[uint64]chan error{}, tails: map[uint64]chan struct{}{}, errSalt: len(c.Script) + int(c.Workers%1000), heldCall: -1}
 	// a real *http.Transport (so that transport-level options apply) that hands the "c02" scheme to the harness
 	htr := &http.Transport{}
 	htr.RegisterProtocol("c02", w)
@@ -997,6 +998,10 @@ func TestC02Random(t *testing.T) {
 		if rapid.IntRange(0, 3).Draw(t, "small") != 0 {
 			c.MaxWorkers = uint64(rapid.IntRange(1, 3).Draw(t, "max"))
 			c.Workers = uint64(rapid.IntRange(0, 3).Draw(t, "workers"))
+			if rapid.IntRange(0, 7).Draw(t, "allworkers") == 0 {
+				// "as many as allowed": any initial count, however large, is capped by max-workers
+				c.Workers = rapid.SampledFrom([]uint64{math.MaxUint64, 1 << 63, 1<<63 + 5, math.MaxInt64, 1 << 32}).Draw(t, "workershuge")
+			}
 		} else if rapid.IntRange(0, 3).Draw(t, "large") == 0 {
 			c.MaxWorkers = uint64(rapid.IntRange(65, 300).Draw(t, "maxl")) // (pools that grow past a hundred workers)
 			c.Workers = uint64(rapid.SampledFrom([]int{0, 1, 10, 127, 128, 129, 300}).Draw(t, "workersl"))
